@@ -58,6 +58,29 @@ def bool_facts(t, val):
     return out
 
 
+def slice_get_facts(X, possible):
+    """`s.get(i)` is Some exactly when the index / range is in bounds"""
+    S, idx = X[2][0], unref(X[2][1])
+    L = ("call", "len", (S,))
+    out = []
+    if possible == {"Some"}:
+        if idx[0] == "agg" and idx[1].endswith("ops::RangeFrom::RangeFrom"):
+            out.append(("le", unref(idx[2][0]), L))
+        elif idx[0] == "agg" and idx[1].endswith("ops::Range::Range"):
+            out.append(("le", unref(idx[2][0]), unref(idx[2][1])))
+            out.append(("le", unref(idx[2][1]), L))
+        elif idx[0] == "agg" and idx[1].endswith("ops::RangeTo::RangeTo"):
+            out.append(("le", unref(idx[2][0]), L))
+        elif idx[0] != "agg":
+            out.append(("lt", idx, L))
+    elif possible == {"None"}:
+        if idx[0] == "agg" and idx[1].endswith("ops::RangeFrom::RangeFrom"):
+            out.append(("lt", L, unref(idx[2][0])))
+        elif idx[0] != "agg":
+            out.append(("le", L, idx))
+    return out
+
+
 def _const_bool(t):
     if t in (("const", "true"), ("int", 1)):
         return True
@@ -84,6 +107,9 @@ def term_cases(t):
         for o in t[1]:
             out.extend(term_cases(o))
         return out
+    if k == "call" and t[1] == "Option::map" and len(t[2]) == 2:
+        src = unref(t[2][0])
+        return [("Some", [("is_some", src, True)], t), ("None", [("is_some", src, False)], t)]
     if k == "call" and t[1] in ("bool::then", "bool::then_some") and len(t[2]) == 2:
         some_v = ("agg", "std::option::Option::Some", (t[2][1],)) if t[1] == "bool::then_some" else t
         return [("Some", bool_facts(t[2][0], True), some_v), ("None", bool_facts(t[2][0], False), t)]
@@ -242,6 +268,8 @@ def switch_facts(ev, ctx, bb, target_vals, is_otherwise, listed_vals):
                 out.append(("is_some", X, False))
             if X[0] == "call" and X[1] in ("bool::then", "bool::then_some") and possible in ({"Some"}, {"None"}):
                 out.extend(bool_facts(X[2][0], possible == {"Some"}))
+            if X[0] == "call" and X[1] == "slice_get" and len(X[2]) == 2:
+                out.extend(slice_get_facts(X, possible))
             else:
                 out.append(("variant_in", X, frozenset(possible)))
         return out
@@ -351,6 +379,19 @@ def full_block_facts(ev, ctx, bb):
     return out
 
 
+def range_elem(t):
+    """(lo, hi) if term t is an element produced by iterating a half-open range lo..hi: the payload of
+    `Iterator::next(&mut (lo..hi).into_iter())` (a `for i in lo..hi` loop)"""
+    t = unref(t)
+    if t[0] == "payload" and t[1][0] == "ret" and t[1][1] == "std::iter::Iterator::next" and t[1][2]:
+        a = unref(t[1][2][0])
+        if a[0] == "call" and a[1] == "into_iter" and a[2]:
+            a = unref(a[2][0])
+        if a[0] == "agg" and a[1].endswith("ops::Range::Range") and len(a[2]) == 2:
+            return unref(a[2][0]), unref(a[2][1])
+    return None
+
+
 class Prover:
     """Entailment over lt/le/eq/ne facts on terms. Deliberately small and sound."""
 
@@ -410,6 +451,11 @@ class Prover:
     def _le(self, a, b, depth):
         if self.eq(a, b):
             return True
+        ra, rb = range_elem(a), range_elem(b)
+        if ra is not None and self.le(ra[1], b, depth + 1):
+            return True  # a < hi <= b
+        if rb is not None and self.le(a, rb[0], depth + 1):
+            return True  # a <= lo <= b
         if a[0] == "int" and b[0] == "int":
             return a[1] <= b[1]
         if a[0] == "int" and a[1] == 0:
@@ -507,6 +553,9 @@ class Prover:
     def _lt(self, a, b, depth):
         if a[0] == "int" and b[0] == "int":
             return a[1] < b[1]
+        ra = range_elem(a)
+        if ra is not None and self.le(ra[1], b, depth + 1):
+            return True  # a < hi <= b
         for f in self._facts_for(a):
             if len(f) != 3:
                 continue
@@ -532,9 +581,13 @@ class Prover:
         for f in self._facts_for(b):
             if len(f) == 3 and f[0] == "lt" and f[2] == b and self.le(a, f[1], depth + 1):
                 return True
-        # a != b and a <= b
+        # a != b and a <= b   (b - a != 0 says a != b as well)
         for f in self.facts:
             if f[0] == "ne" and len(f) == 3 and ((f[1] == a and f[2] == b) or (f[1] == b and f[2] == a)):
+                if self.le(a, b, depth + 1):
+                    return True
+            if f[0] == "ne" and len(f) == 3 and f[2] == ("int", 0) and f[1][0] == "bin" and f[1][1] == "Sub" \
+                    and unref(f[1][2]) == b and unref(f[1][3]) == a:
                 if self.le(a, b, depth + 1):
                     return True
         return False
